@@ -105,6 +105,31 @@ def add_new_constant_tensor(
   return new_tensor_id
 
 
+def get_unique_tensor_name(
+    tensor_name: bytes,
+    subgraph: schema_py_generated.SubGraphT,
+) -> bytes:
+  """Get a tensor name that is not used in the subgraph yet.
+
+  Args:
+    tensor_name: The preferred name of the new tensor.
+    subgraph: The subgraph where the new tensor is going to be added.
+
+  Returns:
+    tensor_name if no tensor of the subgraph has that name, otherwise
+    tensor_name followed by a numeric suffix that makes it unique.
+  """
+  existing_names = set()
+  for tensor in subgraph.tensors:
+    existing_names.add(tensor.name)
+  unique_name = tensor_name
+  suffix_id = len(subgraph.tensors)
+  while unique_name in existing_names:
+    unique_name = tensor_name + b'_%d' % suffix_id
+    suffix_id += 1
+  return unique_name
+
+
 def add_new_activation_tensor(
     tensor_name: str,
     shape: list[int],
